@@ -1,6 +1,7 @@
 import PyPhysim.Model.Proto
 import PyPhysim.Model.C05
 import PyPhysim.Model.C05Params
+import PyPhysim.Model.C05Result
 open PyPhysim.Proto PyPhysim.C05
 
 /-!
@@ -24,20 +25,60 @@ structure Res where
   rn : Nat
   misc : Int
   tok : Nat
+  /-- the extra results (`xr=`), every observable -/
+  xs : List RVal
 
 def Res.merge (a b : Res) : Res :=
-  ⟨a.sum + b.sum, a.sq + b.sq, a.n + b.n, a.rv + b.rv, a.rt + b.rt, a.rn + b.rn, b.misc, a.tok + b.tok⟩
+  ⟨a.sum + b.sum, a.sq + b.sq, a.n + b.n, a.rv + b.rv, a.rt + b.rt, a.rn + b.rn, b.misc, a.tok + b.tok,
+   mergeAll a.xs b.xs⟩
+
+/-- an extra result of the scripted program: type, accumulate flag, updates per repetition -/
+structure XSpec where
+  ty : RType
+  acc : Bool
+  k : Nat
+
+def parseXSpec (t : String) : Option XSpec :=
+  match t.splitOn ":" with
+  | [h, k] =>
+    let ty? : Option RType := match h.take 1 |>.toString with
+      | "S" => some .sum | "R" => some .ratio | "M" => some .misc | "C" => some .choice | _ => none
+    match ty?, k.toNat? with
+    | some ty, some k => some ⟨ty, (h.drop 1).toString == "1", k⟩
+    | _, _ => none
+  | _ => none
+
+/-- the j-th update of an extra result in the repetition that returned `a` -/
+def xUpdate (ty : RType) (a : Int) (j : Nat) : Int × Int :=
+  match ty with
+  | .sum | .misc => (a + j, 0)
+  | .ratio => (((a.natAbs + j) % 5 : Nat), 8 * (j + 1))
+  | .choice => (((a.natAbs + j) % 4 : Nat), 0)
+
+def XSpec.build (sp : XSpec) (a : Int) : RVal :=
+  (List.range sp.k).foldl (fun r j => let (v, t) := xUpdate sp.ty a j; r.update v t) (RVal.new sp.ty sp.acc 4)
 
 /-- what the scripted `_run_simulation` returns for value `a` at stream position `c` -/
-def Res.ofCall (a : Int) (c : Nat) : Res :=
-  ⟨a, a * a, 1, (a.natAbs % 5 : Nat), 8, 1, a, 2 ^ c⟩
+def Res.ofCall (specs : List XSpec) (a : Int) (c : Nat) : Res :=
+  ⟨a, a * a, 1, (a.natAbs % 5 : Nat), 8, 1, a, 2 ^ c, specs.map (·.build a)⟩
+
+def showRat' (q : Rat) : String := toString q.num ++ "_" ++ toString q.den
+
+def RVal.show (r : RVal) : String :=
+  let t := match r.ty with | .sum => "S" | .ratio => "R" | .misc => "M" | .choice => "C"
+  let v := if r.ty = .choice then showList toString r.choice "." else toString r.value
+  s!"{t}{if r.acc then 1 else 0}<{v},{r.total},{r.n},{showRat' r.rsum},{showRat' r.rsq},{showList toString r.vlist "."},{showList toString r.tlist "."}>"
 
 def Res.show (r : Res) : String :=
-  s!"{r.sum}/{r.sq}/{r.n}/{r.rv}/{r.rt}/{r.rn}/{r.misc}/{r.tok}"
+  s!"{r.sum}/{r.sq}/{r.n}/{r.rv}/{r.rt}/{r.rn}/{r.misc}/{r.tok}" ++
+    (if r.xs.isEmpty then "" else "~" ++ String.join (r.xs.map RVal.show))
 
-def parseOuts (s : String) : Option (List (Outcome Res)) :=
+def parseSpecs (toks : List String) : Option (List XSpec) :=
+  (fields ((kv toks "xr").getD "") ",").mapM parseXSpec
+
+def parseOuts (specs : List XSpec) (s : String) : Option (List (Outcome Res)) :=
   (fields s ",").zipIdx.mapM (fun (t, c) =>
-    if t = "s" then some Outcome.skip else t.toInt?.map (fun a => Outcome.ok (Res.ofCall a c)))
+    if t = "s" then some Outcome.skip else t.toInt?.map (fun a => Outcome.ok (Res.ofCall specs a c)))
 
 /-- one `_keep_going` rule -/
 def parseRule (s : String) : Option (Keep Res) :=
@@ -125,7 +166,8 @@ def handleSim (toks : List String) : Option String := do
   let file := (kv toks "file").getD "0" == "1"
   let keep ← parseKeep ((kv toks "keep").getD "always")
   let ops ← parseOps ((kv toks "ops").getD "all")
-  let outs ← parseOuts ((kv toks "outs").getD "")
+  let specs ← parseSpecs toks
+  let outs ← parseOuts specs ((kv toks "outs").getD "")
   let looks ← (fields ((kv toks "look").getD "") "/").mapM parseFixed
   let cfg : Cfg Res := ⟨Res.merge, repMax, dimsOf ps, keep⟩
   let (lines, r, sim) := runOps cfg ops (Runner.new file) outs false []
@@ -254,12 +296,30 @@ def handleHist (toks : List String) : Option String := do
   let repMax ← (kv toks "repmax").bind String.toNat?
   let keep ← parseKeep ((kv toks "keep").getD "always")
   let ops ← (fields ((kv toks "ops").getD "") ",").mapM parseHOp
-  let outs ← parseOuts ((kv toks "outs").getD "")
+  let specs ← parseSpecs toks
+  let outs ← parseOuts specs ((kv toks "outs").getD "")
   let ps0 : PState := ⟨pl.map (fun p => (p.1, PVal.list p.2)), (pl.map (·.1)).reverse⟩
   let h0 : HState := ⟨repMax, false, ps0, none, Runner.new false, outs, []⟩
   some (" ; ".intercalate (runHist keep ops h0 []))
 
+/-! ### `merge_all_results` / `append_all_results` without a runner
+
+`mrg xr=S1:2,M1:1 groups=1.2.3|4.5`: every number is one repetition's results; each group
+is folded with `merge_all_results` (from an empty object or from its first element: the
+same value), the folded groups are appended one after the other. -/
+def handleMrg (toks : List String) : Option String := do
+  let specs ← parseSpecs toks
+  let groups ← (((kv toks "groups").getD "").splitOn "|").mapM (fun g => parseIntList? g ".")
+  let (out, _) := groups.foldl (fun (acc : List String × Nat) g =>
+    let rs := g.zipIdx.map (fun (a, j) => Res.ofCall specs a (acc.2 + j))
+    let line := match rs with
+      | [] => "empty"
+      | r :: rest => (rest.foldl Res.merge r).show
+    (acc.1 ++ [line], acc.2 + g.length)) ([], 0)
+  some ("|".intercalate out)
+
 def handle : List String → String
+  | "mrg" :: toks => (handleMrg toks).getD "bad-op"
   | "hist" :: toks => (handleHist toks).getD "bad-op"
   | "sim" :: toks => (handleSim toks).getD "bad-op"
   | "grid" :: toks => (handleGrid toks).getD "bad-op"
